@@ -81,10 +81,20 @@ def cleanPoint (p : GPoint) : Bool :=
   (!p.byName || !hasChar '\n' p.name) &&
   p.dims.all (fun d => !hasChar '=' d && !hasChar ',' (tagVal p.tags d))
 
-/-- the recorded deviation: the two points are in different groups, at least one is not clean, and the
-transcribed `ToGroupID` gives them the same id -/
+/-- extra cleanliness needed when the two points carry DIFFERENT by-name flags (streams grouped differently and merged
+by a union): the measurement of the by-name point `p` is non-empty and has no '=', and no group-by tag name of the
+other point `q` contains "\n" (theorem `groupid_mixed_flags_partial`) -/
+def cleanMixed (p q : GPoint) : Bool :=
+  p.name != "" && !hasChar '=' p.name && q.dims.all (fun d => !hasChar '\n' d)
+
+def cleanPair (p q : GPoint) : Bool :=
+  cleanPoint p && cleanPoint q &&
+  (if p.byName == q.byName then true else if p.byName then cleanMixed p q else cleanMixed q p)
+
+/-- the recorded deviation: the two points are in different groups, the pair is not clean, and the transcribed
+`ToGroupID` gives them the same id -/
 def devDelimiter (p q : GPoint) : Bool :=
-  !sameGroup p q && !(cleanPoint p && cleanPoint q) &&
+  !sameGroup p q && !cleanPair p q &&
   toGroupID p.byName p.name p.tags p.dims == toGroupID q.byName q.name q.tags q.dims
 
 end Kap.C06
